@@ -95,7 +95,16 @@ def gen_wcfg(rng, stats, comp=None, small=True):
     stats.bump("comp=%d" % comp); stats.bump("level=" + ("default" if level == "d" else "explicit"))
     if pre:
         stats.bump("foreign_prefix")
-    a = "comp=%d level=%s bs=%d ri=%d pre=%s" % (comp, level, bs, ri, hx(pre))
+    pos = ""
+    if pre and rng.chance(1, 2):
+        # where the descriptor stands when the writer gets it: in front of further bytes (rewritten in place), or moved
+        # forward in an empty file (a reserved header: it reads as zeros)
+        if rng.chance(1, 2):
+            pos = " pos=inside"
+        else:
+            pos = " pos=hole"; pre = bytes(len(pre))
+        stats.bump("writer_fd" + pos.replace(" pos=", "_position_"))
+    a = "comp=%d level=%s bs=%d ri=%d pre=%s%s" % (comp, level, bs, ri, hx(pre), pos)
     if minbs is not None:
         a += " minbs=%d" % minbs
     if small and rng.chance(1, 8):
@@ -249,7 +258,7 @@ def systematic_histories(rng, prefix, rid, first_iid, entries, kinds, stats, sep
         Tk = [t for t in T if t >= start] or [start]
         pre = [[]] + [["next"] * j for j in range(1, n + 2)]
         for t1 in (Tk if len(Tk) <= 6 else [Tk[i] for i in sorted(set(rng.below(len(Tk)) for _ in range(6)))]):
-            pre.append([("seek", t1)]); pre.append([("seek", t1), "next"])
+            pre.append([("seek", t1)]); pre.append([("seek", t1), "next"]); pre.append(["next", ("seek", t1)])
         for p in pre:
             for t2 in Tk:
                 hist.append((kind, p + [("seek", t2), "next", "next"]))
